@@ -31,6 +31,7 @@ func init() {
 		ruleK5(c, "C01.R15")
 		ruleOkResults(c, "C01.R16")
 		ruleNullSource(c, "C01.R17")
+		ruleRefused(c, "C01.R18")
 	}
 }
 
